@@ -1,2 +1,262 @@
-pub fn search(_args: &[String]) -> i32 { 0 }
-pub fn replay(_text: &str) -> i32 { 0 }
+//! C02: differential check of the real panic-record machinery (push_panic_if, mux_panic,
+//! replace_panic_with, build, EvalPanic layout) against a reference evaluation of the same operation tree.
+
+use crate::util::{arg_u64, field, write_out, Rng};
+use garble_lang::token::MetaInfo;
+use garble_lang::verif_hooks::Builder;
+
+#[derive(Clone, Debug)]
+pub enum POp {
+    /// potentially failing operation: panics with `reason` at line `line` iff wire `cond` is true
+    Panic { cond: usize, reason: u8, line: usize },
+    /// if/else on wire `cond`
+    Branch { cond: usize, t: Vec<POp>, f: Vec<POp> },
+}
+
+fn fmt_ops(ops: &[POp]) -> String {
+    ops.iter()
+        .map(|o| match o {
+            POp::Panic { cond, reason, line } => format!("p {cond} {reason} {line}"),
+            POp::Branch { cond, t, f } => format!("if {cond} {{ {} }} else {{ {} }}", fmt_ops(t), fmt_ops(f)),
+        })
+        .collect::<Vec<_>>()
+        .join(" ; ")
+}
+
+fn parse_ops(toks: &[&str], pos: &mut usize) -> Vec<POp> {
+    let mut ops = vec![];
+    while *pos < toks.len() {
+        match toks[*pos] {
+            "p" => {
+                let cond = toks[*pos + 1].parse().unwrap_or(0);
+                let reason = toks[*pos + 2].parse().unwrap_or(1);
+                let line = toks[*pos + 3].parse().unwrap_or(0);
+                ops.push(POp::Panic { cond, reason, line });
+                *pos += 4;
+            }
+            "if" => {
+                let cond = toks[*pos + 1].parse().unwrap_or(0);
+                *pos += 3; // if c {
+                let t = parse_ops(toks, pos);
+                *pos += 3; // } else {
+                let f = parse_ops(toks, pos);
+                *pos += 1; // }
+                ops.push(POp::Branch { cond, t, f });
+            }
+            ";" => *pos += 1,
+            _ => break, // `}`
+        }
+    }
+    ops
+}
+
+/// condition slots: 0 = false, 1 = true, 2..2+k inputs, then xor / and / or / not of the first inputs
+fn cond_wires(b: &mut Builder, k: usize) -> (Vec<usize>, Vec<Box<dyn Fn(usize) -> bool>>) {
+    let mut wires: Vec<usize> = vec![0, 1];
+    let mut sem: Vec<Box<dyn Fn(usize) -> bool>> = vec![Box::new(|_| false), Box::new(|_| true)];
+    for i in 0..k {
+        wires.push(2 + i);
+        sem.push(Box::new(move |a| (a >> i) & 1 == 1));
+    }
+    if k >= 2 {
+        wires.push(b.push_xor(2, 3));
+        sem.push(Box::new(|a| (a & 1 == 1) ^ ((a >> 1) & 1 == 1)));
+        wires.push(b.push_and(2, 3));
+        sem.push(Box::new(|a| (a & 1 == 1) & ((a >> 1) & 1 == 1)));
+        wires.push(b.push_or(2, 3));
+        sem.push(Box::new(|a| (a & 1 == 1) | ((a >> 1) & 1 == 1)));
+    }
+    wires.push(b.push_not(2));
+    sem.push(Box::new(|a| a & 1 == 0));
+    (wires, sem)
+}
+
+fn emit(b: &mut Builder, ops: &[POp], wires: &[usize]) {
+    for o in ops {
+        match o {
+            POp::Panic { cond, reason, line } => {
+                b.push_panic_if(wires[*cond], *reason, MetaInfo { start: (*line, 1), end: (*line, 2) });
+            }
+            POp::Branch { cond, t, f } => {
+                let w = wires.to_vec();
+                let w2 = wires.to_vec();
+                b.branch(wires[*cond], &mut |b: &mut Builder| emit(b, t, &w), &mut |b: &mut Builder| emit(b, f, &w2));
+            }
+        }
+    }
+}
+
+fn reference(ops: &[POp], sem: &[Box<dyn Fn(usize) -> bool>], a: usize, cur: &mut Option<(u8, usize)>) {
+    for o in ops {
+        match o {
+            POp::Panic { cond, reason, line } => {
+                if cur.is_none() && sem[*cond](a) {
+                    *cur = Some((*reason, *line));
+                }
+            }
+            POp::Branch { cond, t, f } => {
+                if sem[*cond](a) {
+                    reference(t, sem, a, cur)
+                } else {
+                    reference(f, sem, a, cur)
+                }
+            }
+        }
+    }
+}
+
+fn bits_to_usize(bits: &[bool]) -> usize {
+    bits.iter().fold(0usize, |n, b| (n << 1) | (*b as usize))
+}
+
+pub fn run(k: usize, cache: bool, ops: &[POp]) -> Result<(), String> {
+    let mut b = Builder::new(vec![k], cache);
+    let (wires, sem) = cond_wires(&mut b, k);
+    emit(&mut b, ops, &wires);
+    let c = b.build(vec![0]);
+    for a in 0..(1usize << k) {
+        let inp: Vec<bool> = (0..k).map(|i| (a >> i) & 1 == 1).collect();
+        let out = c.eval(&[inp]);
+        let mut exp = None;
+        reference(ops, &sem, a, &mut exp);
+        let has = out[0];
+        let reason = bits_to_usize(&out[1..33]);
+        let start_line = bits_to_usize(&out[33..65]);
+        let start_col = bits_to_usize(&out[65..97]);
+        let end_line = bits_to_usize(&out[97..129]);
+        let end_col = bits_to_usize(&out[129..161]);
+        match exp {
+            None => {
+                if has {
+                    return Err(format!(
+                        "input {a:#b}: circuit reports a panic (reason {reason}, line {start_line}) but no executed operation fails"
+                    ));
+                }
+            }
+            Some((r, l)) => {
+                if !has {
+                    return Err(format!("input {a:#b}: operation at line {l} fails (reason {r}) but the circuit reports no panic"));
+                }
+                if reason != r as usize || start_line != l || end_line != l || start_col != 1 || end_col != 2 {
+                    return Err(format!(
+                        "input {a:#b}: first failing operation is reason {r} at line {l}, circuit reports reason {reason} at {start_line}:{start_col}-{end_line}:{end_col}"
+                    ));
+                }
+            }
+        }
+    }
+    Ok(())
+}
+
+fn random_ops(rng: &mut Rng, n_conds: usize, depth: usize, line: &mut usize, budget: &mut usize) -> Vec<POp> {
+    let mut ops = vec![];
+    let n = 1 + rng.below(4);
+    for _ in 0..n {
+        if *budget == 0 {
+            break;
+        }
+        *budget -= 1;
+        if depth > 0 && rng.below(4) == 0 {
+            let cond = 2 + rng.below(n_conds - 2);
+            let t = random_ops(rng, n_conds, depth - 1, line, budget);
+            let f = if rng.below(3) == 0 { vec![] } else { random_ops(rng, n_conds, depth - 1, line, budget) };
+            ops.push(POp::Branch { cond, t, f });
+        } else {
+            *line += 1;
+            // bias towards few distinct conditions so that the same condition recurs
+            let cond = if rng.below(8) == 0 { rng.below(2) } else { 2 + rng.below((n_conds - 2).min(4)) };
+            ops.push(POp::Panic { cond, reason: 1 + rng.below(3) as u8, line: *line });
+        }
+    }
+    ops
+}
+
+/// all variants of `ops` with one operation removed or one branch replaced by one of its arms
+fn smaller(ops: &[POp]) -> Vec<Vec<POp>> {
+    let mut res = vec![];
+    for i in 0..ops.len() {
+        let mut v = ops.to_vec();
+        v.remove(i);
+        res.push(v);
+        if let POp::Branch { cond, t, f } = &ops[i] {
+            for sub in smaller(t) {
+                let mut v = ops.to_vec();
+                v[i] = POp::Branch { cond: *cond, t: sub, f: f.clone() };
+                res.push(v);
+            }
+            for sub in smaller(f) {
+                let mut v = ops.to_vec();
+                v[i] = POp::Branch { cond: *cond, t: t.clone(), f: sub };
+                res.push(v);
+            }
+        }
+    }
+    res
+}
+
+fn shrink(k: usize, cache: bool, mut ops: Vec<POp>, mut what: String) -> (Vec<POp>, String) {
+    loop {
+        let mut progressed = false;
+        for cand in smaller(&ops) {
+            if let Err(w) = run(k, cache, &cand) {
+                ops = cand;
+                what = w;
+                progressed = true;
+                break;
+            }
+        }
+        if !progressed {
+            return (ops, what);
+        }
+    }
+}
+
+fn report(k: usize, cache: bool, ops: &[POp], what: &str) -> String {
+    format!(
+        "kind: c02-panic-ops\ninputs: {k}\ncache_gates: {cache}\nops: {}\nobserved: {what}\nnote: `p c r l` = operation that fails with reason r (1 overflow, 2 div-by-zero, 3 out-of-bounds) at line l iff condition slot c is true; slots 0=false 1=true 2..=inputs, then xor/and/or of inputs 0,1 (if >= 2 inputs) and not(input 0)\n",
+        fmt_ops(ops)
+    )
+}
+
+pub fn search(args: &[String]) -> i32 {
+    let random = arg_u64(args, "--random", 20000);
+    let seed = arg_u64(args, "--seed", 1);
+    let mut rng = Rng(seed ^ 0xC02);
+    let mut count = 0u64;
+    for _ in 0..random {
+        let k = 1 + rng.below(3);
+        let n_conds = 2 + k + if k >= 2 { 3 } else { 0 } + 1;
+        let mut line = 0;
+        let mut budget = 10;
+        let ops = random_ops(&mut rng, n_conds, 2, &mut line, &mut budget);
+        for cache in [true, false] {
+            count += 1;
+            if let Err(w) = run(k, cache, &ops) {
+                let (ops, w) = shrink(k, cache, ops.clone(), w);
+                write_out(args, &report(k, cache, &ops, &w));
+                return 3;
+            }
+        }
+    }
+    println!("c02 search: {count} random operation trees (sequences, nested branches, repeated conditions), no disagreement");
+    0
+}
+
+pub fn replay(text: &str) -> i32 {
+    let k: usize = field(text, "inputs").and_then(|v| v.parse().ok()).unwrap_or(2);
+    let cache = field(text, "cache_gates").map(|v| v == "true").unwrap_or(true);
+    let src = field(text, "ops").unwrap_or_default();
+    let toks: Vec<&str> = src.split_whitespace().collect();
+    let mut pos = 0;
+    let ops = parse_ops(&toks, &mut pos);
+    match run(k, cache, &ops) {
+        Ok(()) => {
+            println!("replay: panic output agrees with the reference evaluation on all inputs");
+            0
+        }
+        Err(w) => {
+            println!("replay: REPRODUCED: {w}");
+            3
+        }
+    }
+}
